@@ -67,7 +67,7 @@ pub fn run(args: &[String]) -> i32 {
         let dv_filters = match dvf { "match" => vec![(1u16, 101u32, 1u32)], "mismatch" => vec![(1u16, 101u32, 7u32)], _ => vec![] };
         let sees_events = ev_mode == "wild" || ev_mode == "both";
         let n_status = if ev_mode == "missing" || ev_mode == "both" { 1 } else { 0 };
-        let req = Req { kind: "read".into(), paths, timed: false, ev_paths, late: false, dv_filters, ev_min };
+        let req = Req { kind: "read".into(), paths, timed: false, ev_paths, late: false, dv_filters, ev_min, claim: false, chunk2: None };
         tr.ev(json!({"ev": "Reset", "run": bi}));
         // what the node is built with: the transmit buffer of an exchange and the largest datagram the transport sends
         tr.ev(json!({"ev": "Req", "items": expect, "events": if sees_events { evs.clone() } else { vec![] }, "evstatus": n_status,
